@@ -238,34 +238,7 @@ func c20Aliasing(c *core.Ctx) {
 					return true
 				}
 				// allowed uses of a bookkeeping map
-				var child ast.Node = x
-				p := pm[child]
-				for {
-					if pe, ok := p.(*ast.ParenExpr); ok {
-						child, p = pe, pm[pe]
-						continue
-					}
-					break
-				}
-				ok := false
-				switch pp := p.(type) {
-				case *ast.IndexExpr:
-					ok = pp.X == child
-				case *ast.RangeStmt:
-					ok = pp.X == child
-				case *ast.CallExpr:
-					if b, isB := f.Callee(pp).(*types.Builtin); isB && (b.Name() == "len" || b.Name() == "delete") && len(pp.Args) > 0 && pp.Args[0] == child {
-						ok = true
-					}
-				case *ast.AssignStmt:
-					for _, l := range pp.Lhs {
-						if l == child {
-							ok = true
-						}
-					}
-				case *ast.BinaryExpr:
-					ok = (pp.Op == token.EQL || pp.Op == token.NEQ) && (f.Info.Types[pp.X].IsNil() || f.Info.Types[pp.Y].IsNil())
-				}
+				ok := c20MapUseOK(f, fd, pm, x, 0)
 				if !ok {
 					fEsc.n++
 					fEsc.fail(nil, x, "the bookkeeping map "+book[v]+" is handed out (returned, passed on, copied into another variable/field/event) instead of being copied: whoever holds it sees — or races with — every later applyConfig (a queued event is rewritten: double Init / Inherit from itself; a caller ranging over it crashes with concurrent map iteration and write)")
@@ -643,4 +616,103 @@ func c20FieldVia(f *flow.Func, e ast.Expr) *types.Var {
 		return nil
 	}
 	return c20FieldOf(f, defs[0].rhs)
+}
+
+// c20MapUseOK: the map-valued expression node x (a bookkeeping field, or an alias of it) is used in
+// a way that does not let the map escape: indexed, ranged, len(), delete(), compared with nil,
+// overwritten; bound to a local alias all of whose uses are of that kind (`registered := or.entities`
+// under the lock); or passed to a same-package function whose parameter is only used that way
+// (`watcher.forEachWanted(or.entities, fn)`).
+func c20MapUseOK(f *flow.Func, fd *ast.FuncDecl, pm map[ast.Node]ast.Node, x ast.Node, depth int) bool {
+	if depth > 2 {
+		return false
+	}
+	child := x
+	p := pm[child]
+	for {
+		if pe, ok := p.(*ast.ParenExpr); ok {
+			child, p = pe, pm[pe]
+			continue
+		}
+		break
+	}
+	usesOK := func(g *flow.Func, gfd *ast.FuncDecl, v *types.Var) bool {
+		if v == nil || !c20IsLocalVar(v) || gfd == nil || gfd.Body == nil {
+			return false
+		}
+		gpm := pm
+		if gfd != fd {
+			gpm = parentMap(gfd)
+		}
+		// exactly one definition (the alias itself / the parameter): never re-pointed
+		if len(c20Defs(g, gfd, v)) > 1 {
+			return false
+		}
+		ok := true
+		ast.Inspect(gfd.Body, func(n ast.Node) bool {
+			if id, isID := n.(*ast.Ident); isID && g.Info.Uses[id] == types.Object(v) {
+				if !c20MapUseOK(g, gfd, gpm, id, depth+1) {
+					ok = false
+				}
+			}
+			return ok
+		})
+		return ok
+	}
+	switch pp := p.(type) {
+	case *ast.IndexExpr:
+		return pp.X == child
+	case *ast.RangeStmt:
+		return pp.X == child
+	case *ast.BinaryExpr:
+		return (pp.Op == token.EQL || pp.Op == token.NEQ) && (f.Info.Types[pp.X].IsNil() || f.Info.Types[pp.Y].IsNil())
+	case *ast.AssignStmt:
+		for _, l := range pp.Lhs {
+			if l == child {
+				return true
+			}
+		}
+		if len(pp.Lhs) == len(pp.Rhs) {
+			for i, r := range pp.Rhs {
+				if r == child {
+					if v := c20Var(f, pp.Lhs[i]); v != nil {
+						return usesOK(f, fd, v)
+					}
+				}
+			}
+		}
+	case *ast.ValueSpec:
+		if len(pp.Names) == len(pp.Values) {
+			for i, r := range pp.Values {
+				if r == child {
+					v, _ := f.Info.Defs[pp.Names[i]].(*types.Var)
+					return usesOK(f, fd, v)
+				}
+			}
+		}
+	case *ast.CallExpr:
+		if b, isB := f.Callee(pp).(*types.Builtin); isB {
+			return (b.Name() == "len" || b.Name() == "delete") && len(pp.Args) > 0 && pp.Args[0] == child
+		}
+		fo, ok := f.Callee(pp).(*types.Func)
+		if !ok || fo.Pkg() != f.Pkg.Types {
+			return false
+		}
+		hfd := declOf(f.Pkg, fo)
+		if hfd == nil || hfd.Type.Params == nil {
+			return false
+		}
+		h := flow.NewFunc(f.Pkg, hfd)
+		i := 0
+		for _, fld := range hfd.Type.Params.List {
+			for _, id := range fld.Names {
+				if i < len(pp.Args) && pp.Args[i] == child {
+					pv, _ := h.Info.Defs[id].(*types.Var)
+					return usesOK(h, hfd, pv)
+				}
+				i++
+			}
+		}
+	}
+	return false
 }
